@@ -194,8 +194,10 @@ impl<'a> Interp<'a> {
         if off >= MAX_PATH {
             return Err(Fail::new("find-data-plain-name-outside-buffer", format!("szPlainName points {off} bytes after the start of cFileName[260] (name of {} bytes, last separator at {sep})", full.len())));
         }
-        if off != sep {
-            return Err(Fail::new("find-data-plain-name-wrong", format!("szPlainName offset {off}, expected {sep} for {full:?}")));
+        // the plain name lives in the (possibly truncated) cFileName
+        let sep_t = trunc259(full).iter().rposition(|b| *b == b'\\').map(|p| p + 1).unwrap_or(0);
+        if off != sep_t {
+            return Err(Fail::new("find-data-plain-name-wrong", format!("szPlainName offset {off}, expected {sep_t} for {full:?}")));
         }
         Ok(())
     }
